@@ -43,7 +43,7 @@ TIERS = {
         depth=2,
         ct0=["none", "def", "defprot", "defpriv", "defdflt", "defdel", "int", "intdflt", "copy",
              "copypriv", "copydel", "copydflt", "copyx", "copync", "move", "moveas", "def+copy",
-             "dflt+dflt"],
+             "dflt+dflt", "nc+copy", "copy+nc", "nc+copydel"],
         dt0=["none", "pub", "virt", "prot", "priv", "del", "dflt", "purev"],
         dm0=["none", "int", "cint", "ref", "init", "cinit", "refinit"],
         vf0=["none", "virt", "pure", "final", "pureconst"],
@@ -543,6 +543,34 @@ def vchain_shapes():
     return out
 
 
+def copyset_shapes():
+    """Classes that declare TWO copy/move constructor forms (both declaration orders), alone
+    and as base (non-virtual / virtual), member, const member and array member of a class
+    whose own copy constructor is implicit or defaulted."""
+    out, seen = [], set()
+
+    def add(s):
+        if s not in seen:
+            seen.add(s)
+            out.append(s)
+    for ct in L.COPY_SETS:
+        for dt in ("none", "pub", "prot"):
+            for dm in ("none", "cint"):
+                add((ct, dt, dm, "none", (), ()))
+        R = (ct, "none", "none", "none", (), ())
+        for dct in ("none", "copydflt", "dflt+dflt", "def"):
+            for virt in (False, True):
+                add((dct, "none", "none", "none", (("public", virt, R),), ()))
+            for mk in ("val", "const", "arr", "ref"):
+                add((dct, "none", "none", "none", (), ((mk, R),)))
+            # one level further: through a plain intermediate class
+            M = ("none", "none", "none", "none", (("public", False, R),), ())
+            add(M)
+            add((dct, "none", "none", "none", (("public", True, M),), ()))
+            add((dct, "none", "none", "none", (), (("arr", M),)))
+    return out
+
+
 # ------------------------------------------------------------------ driver
 def detail_of(o, hdr=None):
     return {"shape": L.key(o.shape), "compiler": dict(o.gxx) if o.gxx else None,
@@ -643,6 +671,14 @@ def main():
     else:
         ck.extra["vchain"] = {"classes": len(vshapes), "valid": len(vobs)}
         print("vchain: %d classes, %d valid, %.0fs" % (len(vshapes), len(vobs), ck.elapsed()), flush=True)
+
+    cshapes = copyset_shapes()
+    cobs = process("copyset", cshapes)
+    if cobs is None:
+        ck.cap("deadline during the copyset family")
+    else:
+        ck.extra["copyset"] = {"classes": len(cshapes), "valid": len(cobs)}
+        print("copyset: %d classes, %d valid, %.0fs" % (len(cshapes), len(cobs), ck.elapsed()), flush=True)
 
     reps = {}       # rep key -> shape (first in canonical order)
     coarse = {}
